@@ -19,7 +19,7 @@ import (
 // C09 — one message per frame: SSE events and stdio lines never interleave.
 
 var c09Payloads = map[string]string{
-	"small": "pay", "lf": "a\nb", "crlf": "a\r\nb", "cr": "a\rb", "u2028": "a b c", "4097": strings.Repeat("x", 4097), "65537": strings.Repeat("y", 65537),
+	"small": "pay", "pct": "5% %d %s 100%", "lf": "a\nb", "crlf": "a\r\nb", "cr": "a\rb", "u2028": "a b c", "4097": strings.Repeat("x", 4097), "65537": strings.Repeat("y", 65537),
 }
 
 func c09PayloadNames() []string {
@@ -72,7 +72,7 @@ func init() {
 			c.DFSBoth("c09/io-server-bad/"+pl, b, 1)
 			c.DFSBoth("c09/io-client/"+pl, b, 1)
 			c.DFS("c09/post-sse/"+pl, explore.Bounds{Preempt: 1, Dev: 1, POR: true})
-			if c.Quick() && pl != "small" && pl != "65537" && pl != "lf" {
+			if c.Quick() && pl != "small" && pl != "65537" && pl != "lf" && pl != "pct" {
 				continue // quick tier: the HTTP stream scenarios run for three payload classes (thorough: all seven)
 			}
 			c.DFSBoth("c09/get-stream/"+pl, b, 1)
@@ -538,7 +538,17 @@ func c09LSStream(prefix []int, pl string, tick bool) explore.Outcome {
 				rp.P.Do(http.MethodPost, rp.Endpoint, "", []byte(fmt.Sprintf(`{"jsonrpc":"2.0","id":%s,"result":{"roots":[{"uri":"file:///a"}]}}`, id)), nil)
 			}
 		})
+		var pushErr error
+		if !tick {
+			// the notification pump is the third writer of the stream (after the event queue and the keep-alive)
+			vsched.Go("push", func() {
+				pushErr = r.SSE.SendNotification("sse-0001", "notifications/message", map[string]interface{}{"n": 1, "data": payload})
+			})
+		}
 		vsched.Quiesce()
+		if pushErr != nil {
+			viol = append(viol, V("send-fails:ls-stream", "SendNotification failed: %v", pushErr))
+		}
 		got, v := c09SSE(rp.Stream.Delivered(), "ls-stream")
 		viol = append(viol, v...)
 		want := map[string]func(map[string]interface{}) bool{
@@ -548,6 +558,10 @@ func c09LSStream(prefix []int, pl string, tick bool) explore.Outcome {
 		}
 		if !tick {
 			want["echo response"] = func(m map[string]interface{}) bool { return hasID(11)(m) && resultText(m) == "echo:"+payload }
+			want["pushed notification"] = func(m map[string]interface{}) bool {
+				p, _ := m["params"].(map[string]interface{})
+				return m["method"] == "notifications/message" && p["n"] == float64(1) && p["data"] == payload
+			}
 		}
 		viol = append(viol, c09Expect(got, "ls-stream", want)...)
 		obs.Add("%d events", len(got))
